@@ -1,7 +1,7 @@
 (* C03 property theorems (fine-grained model C03_Model.v: every interleaving of any number of
    threads on any number of vCPUs).  Statements that are not proved yet are kept as Definitions. *)
 From Coq Require Import ZArith List.
-From PV Require Import Base.U64 C04.C04_Heap C03.C03_Model C03.C03_WF C03.C03_Proofs C03.C03_Queue C03.C03_Notify C03.C03_Result C03.C03_IntrRace.
+From PV Require Import Base.U64 C04.C04_Heap C03.C03_Model C03.C03_WF C03.C03_Proofs C03.C03_Queue C03.C03_Notify C03.C03_Result C03.C03_IntrRace C03.C03_Locked C03.C03_NeverBad.
 Import ListNotations.
 Local Open Scope Z_scope.
 
@@ -37,12 +37,14 @@ Theorem c03_held_exclusive : forall nv kinds home progs s t1 t2 l,
 Proof. exact held_exclusive. Qed.
 Print Assumptions c03_held_exclusive.
 
-(* cv_wait_returns_locked *)
-Theorem c03_cv_wait_returns_locked : forall nv kinds home progs s a s' t l,
-  Reach nv kinds home progs s -> step s a = Some s' ->
-  in_relock (tpc (th s t)) l -> tpc (th s' t) = PIdle -> held (th s' t) l = true ->
-  lown s' l = Some t.
-Proof. exact cv_wait_returns_locked. Qed.
+(* cv_wait_returns_locked: the step of the re-lock loop that completes wait() (pc back to PIdle) leaves the
+   lock owned by the waiter — every interleaving, mutex and spinlock *)
+Theorem c03_cv_wait_returns_locked : forall nv kinds home progs s v t r l c ret en s',
+  Reach nv kinds home progs s -> runq (vc s v) = Th t :: r -> pend (vc s v) = None ->
+  (tpc (th s t) = PLockTry l (KWait c ret en) \/ tpc (th s t) = PLockSlept l (KWait c ret en)) ->
+  vstep s v = Some s' -> tpc (th s' t) = PIdle ->
+  held (th s' t) l = true /\ lown s' l = Some t.
+Proof. exact cv_wait_returns_locked_strong. Qed.
 Print Assumptions c03_cv_wait_returns_locked.
 
 (* queue side: a thread that has executed the enqueue block of wait(c,l) and that nobody has woken
@@ -132,10 +134,13 @@ Theorem c03_notified_returns_0_refuted_with_interrupts :
 Proof. exact notified_returns_0_refuted_with_interrupts. Qed.
 Print Assumptions c03_notified_returns_0_refuted_with_interrupts.
 
+(* the model never leaves the domain where the C++ is defined (prelocked_thread_interrupt is only ever
+   applied to a SLEEPING thread: its compiled-out assert would hold) *)
+Theorem c03_never_bad : forall nv kinds home progs s, Reach nv kinds home progs s -> bad s = false.
+Proof. exact never_bad. Qed.
+Print Assumptions c03_never_bad.
+
 (* ---- statements not proved yet (kept at full strength) ---------------------------------------- *)
-(* never_bad: `bad` is set only by the else-branch of the PNfGo step, which c03_notify_go_head /
-   c03_notify_go_effect show is never taken; the global statement needs one more pass over all steps *)
-Definition never_bad : Prop := forall nv kinds home progs s, Reach nv kinds home progs s -> bad s = false.
 (* "notified => returns 0" (the converse of the first half of c03_cv_wait_result) is NOT an invariant of the
    faithful model when interrupts are present: thread_interrupt's unlocked `out:` path can overwrite the -1
    of a notification (see notes/C03.md, Findings); it holds for interrupt-free programs (not mechanised). *)
